@@ -154,6 +154,16 @@ pub struct Sess {
     pub connected_ms: u64,
 }
 
+/// "Late denial": a client is refused by a full server, the refusal is held back by the network, the server gets room, the
+/// client's next request is admitted and the session starts; only then does the refusal arrive, and traffic goes on.
+pub struct Scn {
+    pub stage: u8,
+    pub slot: usize,
+    pub epoch: u32,
+    pub denial_seq: u64,
+    pub sent: u32,
+}
+
 pub struct WorldB {
     pub cfg: Cfg,
     pub rng_installed: bool,
@@ -191,6 +201,8 @@ pub struct WorldB {
     pub deferred: Vec<(String, String, String, String)>,
     pub token_roundtrips: u64,
     pub warm_queue: std::collections::VecDeque<Op>,
+    /// scripted scenario in progress (generator state only: every step it emits is an ordinary recorded operation)
+    pub scn: Option<Scn>,
 }
 
 pub fn make_world(cfg: &Cfg) -> Box<dyn World> {
@@ -296,6 +308,7 @@ impl WorldB {
             deferred: Vec::new(),
             token_roundtrips: 0,
             warm_queue: std::collections::VecDeque::new(),
+            scn: None,
         };
         // optional warm-up (part of the recorded trace, emitted through gen): clients are created and a few clean rounds run,
         // so that most of the run happens on established sessions
